@@ -126,4 +126,20 @@ BENIGN = [
         ('src/quadwt/huffqwt.rs', "    fn select(&self, symbol: Self::Item, i: usize) -> Option<usize> {\n        if !self.is_coded(symbol) {", "    fn select(&self, symbol: Self::Item, i: usize) -> Option<usize> {\n        if self.is_empty() || !self.is_coded(symbol) {")]),
     ('b12-space-usage-reordered', [
         ('src/qvector/rs_qvector.rs', "self.qv.space_usage_byte() + self.rs_support.space_usage_byte() + 5 * 8", "5 * 8 + self.rs_support.space_usage_byte() + self.qv.space_usage_byte()")]),
+    ('b13-sample-slot-by-shift', [
+        ('src/qvector/rs_qvector/rs_support_plain.rs', "        let sampled_i = (i - 1) / Self::SELECT_NUM_SAMPLES;", "        let slot = (i - 1) >> 13;\n        let sampled_i = slot;")]),
+    ('b14-hint-test-through-a-local', [
+        ('src/bitvector/rs_wide.rs', "            if (total_rank + word_pop) / SELECT_ONES_PER_HINT as u128 > cur_hint_1 {", "            let ones_so_far = total_rank + word_pop;\n            if ones_so_far / SELECT_ONES_PER_HINT as u128 > cur_hint_1 {")]),
+    ('b15-div-ceil', [
+        ('src/bitvector/mod.rs', "        let new_size = (self.n_bits + 511) / 512;", "        let new_size = self.n_bits.div_ceil(512);")]),
+    ('b16-chunk-close-by-mask', [
+        ('src/quadwt/prefetch_support.rs', "            if i % sample_rate == 0 || i == qv.len() - 1 {", "            if i & (sample_rate - 1) == 0 || i == qv.len() - 1 {")]),
+    ('b17-group-by-shift', [
+        ('src/darray/mod.rs', "        let block = i / BLOCK_SIZE;", "        let block = i >> 10;")]),
+    ('b18-shift-recomputed-per-level', [
+        ('src/quadwt/mod.rs', "        for level in 0..self.n_levels - 1 {\n            let two_bits: u8 = ((symbol >> shift as usize).as_() & 3) as u8;\n\n            // Safety: Here we are sure that two_bits is a symbol in [0..3]\n            let offset = unsafe { self.qvs[level].occs_smaller_unchecked(two_bits) };\n            cur_p = self.qvs[level].rank_unchecked(two_bits, cur_p) + offset;",
+         "        for level in 0..self.n_levels - 1 {\n            debug_assert!(shift == 2 * (self.n_levels - 1 - level) as i64);\n            let two_bits: u8 = ((symbol >> shift as usize).as_() & 3) as u8;\n\n            // Safety: Here we are sure that two_bits is a symbol in [0..3]\n            let offset = unsafe { self.qvs[level].occs_smaller_unchecked(two_bits) };\n            cur_p = self.qvs[level].rank_unchecked(two_bits, cur_p) + offset;")]),
+    ('b19-guard-by-checked-sub', [
+        ('src/bitvector/mod.rs', "(index > self.n_bits) || (len > self.n_bits - index) {\n            return None;\n        }\n        // SAFETY: safe access due to the above checks\n        Some(unsafe { self.get_bits_unchecked(index, len) })",
+         "(index > self.n_bits) {\n            return None;\n        }\n        if len > self.n_bits - index {\n            return None;\n        }\n        // SAFETY: safe access due to the above checks\n        Some(unsafe { self.get_bits_unchecked(index, len) })")]),
 ]
